@@ -5,10 +5,11 @@ import common
 from common import Broken, sh
 
 ASSUMPTIONS = [
-    "the signer of a transaction is the address returned by msg.Signers() (owner / buyer / from field); that the signature "
-    "really is that address's is C04's property (DeliverTx does not call Validate)",
-    "all ONS amounts are in the base currency OLT (Validate enforces it at CheckTx; on the unvalidated deliver path a non-OLT "
-    "priced create/renew/purchase ends in logger.Fatal inside FeePool.AddToPool: C18's matter, not modelled)",
+    "the signer of a transaction is the address returned by msg.Signers() (owner / buyer / from field); DeliverTx runs the handler's "
+    "Validate first (since /repo d276709), whose signature / signer-set / fee / currency part is ONE boolean input of the model "
+    "(t_static_ok; its correctness is C04's property), while the per-kind field checks (name syntax, amount sign, sub-name "
+    "exclusions, nil beneficiary on deactivation) are modelled",
+    "all ONS amounts that reach a handler are in the base currency OLT (Validate refuses the rest; generated and checked)",
     "a failed handler or fee step leaves no trace (session discarded: C06); the fee (gas used x price) and the charged address "
     "are inputs of the model, gas metering is not modelled; for a failed transaction the model is given the upper bound gas limit x price",
     "governance ONS options: perBlockFees > 0 (a zero value makes big.Int.Div panic); option changes between transactions are "
@@ -19,7 +20,8 @@ ASSUMPTIONS = [
 
 # monitor classes reported by OnsCheck.monitor_step
 CLASSES = {1: "unauthorised-record-change", 3: "expiry-not-the-blocks-bought", 4: "sub-name-invariant-broken",
-           5: "failed-transaction-left-a-trace", 6: "two-records-for-one-name"}
+           5: "failed-transaction-left-a-trace", 6: "two-records-for-one-name",
+           7: "name-on-sale-without-its-owners-sell-transaction"}
 KNOWN = {11: "C20.purchase_misses_uncommitted_sub", 12: "C20.expiry_blocks_ge_2p63"}
 
 
@@ -86,8 +88,9 @@ def run(ctx):
     cov = ctx.coverage
     cov.update({
         "evaluations": rep["txs"], "distinct_nontrivial": rep["distinct"],
-        "rule": "4 directed histories (uncommitted sub-name vs purchase; look-alike names n/xn/nx/nn/an with sub-names; block count "
-                ">= 2^63; expiry and re-purchase) + seeded random histories over 6 accounts (5 funded, 1 poor), 12 names that are "
+        "rule": "8 directed histories (uncommitted sub-name vs purchase; look-alike names n/xn/nx/nn/an with sub-names; block count "
+                ">= 2^63; expiry and re-purchase; listing -> expiry -> expired-name purchase -> stranger offers the old price, with "
+                "its neighbours: listing cancelled before expiry, renewed and bought live once; inputs only Validate rejects) + seeded random histories over 6 accounts (5 funded, 1 poor), 12 names that are "
                 "prefixes/suffixes of each other and sub-/sub-sub-names, 5 invalid names, 5 option sets; the generator looks at the "
                 "observed registry so that ~70% of signers are the current owner and offers straddle the asking/base price; "
                 "distinct = distinct (operation, outcome, registry size)",
@@ -99,7 +102,7 @@ def run(ctx):
         "samples": rep["samples"],
         "explanation": "theorems of props/C20.v re-checked; Ons.v evaluated by vm_compute on every transaction of every history run on "
                        "the real app through ABCI (outcome, all d_ records, 6 balances, fee pool compared after EVERY transaction); "
-                       "monitor = authorisation / payment / expiry / sub-name invariants evaluated on the implementation's consecutive "
+                       "monitor = authorisation (incl. who signed the listing a purchase relies on) / payment / expiry / sale-status / sub-name invariants evaluated on the implementation's consecutive "
                        "observed states (independent of the model step)",
     })
     judge(ctx, cases, mm, mv)
